@@ -2,6 +2,8 @@
 //! Private names used: `MutableItem { target, key, seq, value, signature, salt }`,
 //! `encode_signable`.  Stubs: the Ed25519 `verify` call is an oracle (harness/env.rs).
 use super::*;
+#[allow(unused_imports)]
+use crate::verif_env::k as kani;
 use crate::verif_env::oracle;
 
 /// independent reference for BEP44's signable buffer; `seq_dec` is the decimal text of seq
@@ -200,6 +202,129 @@ fn c02_o1f_from_dht_message_sig_lengths() {
     std::mem::forget(r0);
     std::mem::forget(r1);
     std::mem::forget(r2);
+}
+
+// ---- C02.O1u: from_dht_message with the signable encoding as a recorded function ----
+static mut SG_CALLS: crate::verif_env::Ghost<usize> = crate::verif_env::ghost(84, 0);
+static mut SG_SEQ: crate::verif_env::Ghost<i64> = crate::verif_env::ghost(85, 0);
+static mut SG_V: crate::verif_env::Ghost<(usize, u8)> = crate::verif_env::ghost(86, (0, 0));
+static mut SG_SALT: crate::verif_env::Ghost<(bool, usize, u8)> = crate::verif_env::ghost(87, (false, 0, 0));
+const SG_TAG: [u8; 3] = [0xAA, 0xBB, 0xCC];
+/// `encode_signable` as a recorded function: notes (seq, v, salt) and returns a tag buffer; that the
+/// real function is the BEP44 encoding of exactly these three inputs is C02.O1s
+fn encode_signable_probe(seq: i64, value: &[u8], salt: Option<&[u8]>) -> Box<[u8]> {
+    unsafe {
+        SG_CALLS.v += 1;
+        SG_SEQ.v = seq;
+        SG_V.v = (value.len(), if value.is_empty() { 0 } else { value[0] });
+        SG_SALT.v = match salt {
+            Some(s) => (true, s.len(), if s.is_empty() { 0 } else { s[0] }),
+            None => (false, 0, 0),
+        };
+    }
+    Box::new(SG_TAG)
+}
+
+//@ ob: C02.O1u
+//@ tier: thorough
+//@ cap: 1500
+//@ also: C03
+//@ desc: MutableItem::from_dht_message(target, k, v, seq, sig, salt) for EVERY i64 seq: Ok(item) iff the signature oracle said valid for exactly (k, encode_signable(seq, v, salt), sig) -- the signable buffer computed once, from the request's own seq, value and salt -- AND target = target_from_key(k, salt); the item carries target, k, seq, v, salt, sig; an item for another salt, another key's target, or with a corrupted signature is refused
+//@ bounds: k = a concrete valid Ed25519 key; target 20 symbolic bytes; sig 64 symbolic bytes; v 1 symbolic byte; salt absent or 1 symbolic byte; seq full symbolic i64; symbolic verdict; unwind 66
+//@ stubs: <VerifyingKey as Verifier<Signature>>::verify -> oracle with pre-drawn verdict, query recorded; VerifyingKey::from_bytes -> wrap without point decompression (real: C02.O1f, native replay); mutable::encode_signable -> recorded function of (seq, v, salt) (that it is the BEP44 encoding: C02.O1s); MutableItem::target_from_key -> uninterpreted function of (k, salt) (that it is SHA-1 over k || salt: C02.O1t)
+//@ functions: MutableItem::from_dht_message
+#[kani::proof]
+#[kani::stub(<ed25519_dalek::VerifyingKey as ed25519_dalek::Verifier<ed25519_dalek::Signature>>::verify, oracle::verify_stub)]
+#[kani::stub(MutableItem::target_from_key, target_uf)]
+#[kani::stub(ed25519_dalek::VerifyingKey::from_bytes, oracle::from_bytes_wrap)]
+#[kani::stub(encode_signable, encode_signable_probe)]
+#[kani::unwind(66)]
+fn c02_o1u_from_dht_message_any_seq() {
+    crate::verif_env::uf::arm(kani::any());
+    let verdict: bool = kani::any();
+    oracle::arm(0, verdict);
+    let key = oracle::K1;
+    let target_b: [u8; 20] = kani::any();
+    let target = Id::from(target_b);
+    let seq: i64 = kani::any();
+    let vb: u8 = kani::any();
+    let sb: u8 = kani::any();
+    let with_salt: bool = kani::any();
+    let salt_arr = [sb];
+    let salt: Option<&[u8]> = if with_salt { Some(&salt_arr) } else { None };
+    // the message the oracle must be asked about: under Kani the tag the recorded function returns,
+    // in native replay the real BEP44 buffer (real Ed25519 signs / verifies it)
+    #[cfg(not(verif_replay))]
+    let msg: Vec<u8> = SG_TAG.to_vec();
+    #[cfg(verif_replay)]
+    let msg: Vec<u8> = ref_signable(salt, seq.to_string().as_bytes(), &[vb]);
+    let sym_sig: [u8; 64] = kani::any();
+    let sig = oracle::signature(0, 1, &msg, sym_sig);
+    let expected_target = MutableItem::target_from_key(&key, salt);
+    let r = MutableItem::from_dht_message(target, &key, Box::new([vb]), seq, &sig, salt.map(|s| s.into()));
+    match &r {
+        Ok(item) => {
+            #[cfg(not(verif_replay))]
+            {
+                assert!(oracle::asked() == 1 && verdict, "C02.O1 accepted item passed signature verification");
+                assert!(oracle::was_about(0, &key, &msg, &sig), "C02.O1 verified exactly (k, signable(salt, seq, v), sig)");
+                let (calls, s, v, sl) = unsafe { (SG_CALLS.v, SG_SEQ.v, SG_V.v, SG_SALT.v) };
+                assert!(calls == 1 && s == seq && v == (1, vb), "C02.O1 the verified buffer encodes the item's own seq and value");
+                assert!(sl == (with_salt, with_salt as usize, if with_salt { sb } else { 0 }), "C02.O1 the verified buffer encodes the requested salt");
+            }
+            assert!(target == expected_target, "C02.O1 accepted item's target is target_from_key(k, salt) = SHA1(k || salt)");
+            assert!(*item.key() == key && item.seq() == seq && item.value() == &[vb], "C02.O1 item carries k, seq, v");
+            assert!(item.salt() == salt && *item.signature() == sig && *item.target() == target, "C02.O1 item carries salt, sig, target");
+        }
+        Err(_) => {
+            assert!(!verdict || target != expected_target, "C02.O1 an authentic item for this target is accepted");
+        }
+    }
+    kani::cover!(r.is_ok() && seq < 0 && with_salt);
+    kani::cover!(r.is_ok() && seq == i64::MAX);
+    kani::cover!(r.is_err() && verdict);
+    kani::cover!(r.is_err() && !verdict);
+    assert!(!crate::verif_env::cut_reached(), "CUT: oracle capacity");
+    std::mem::forget(r);
+    std::mem::forget(msg);
+}
+
+//@ ob: C02.O1s
+//@ tier: thorough
+//@ cap: 1500
+//@ also: C03
+//@ desc: mutable::encode_signable(seq, v, salt) is byte for byte the BEP44 signable buffer -- "4:salt" len ":" salt (only with a salt) then "3:seqi" seq "e1:v" len ":" v -- for seq = 1 without salt and seq = -1 with a one-byte salt of any value (bytes that are not valid UTF-8 included)
+//@ bounds: two concrete seqs (1, -1); 1 symbolic value byte; 1 symbolic salt byte; unwind 26
+//@ stubs: none
+//@ functions: mutable::encode_signable
+#[kani::proof]
+#[kani::unwind(26)]
+fn c02_o1s_signable_encoding() {
+    let vb: u8 = kani::any();
+    let sb: u8 = kani::any();
+    let a = encode_signable(1, &[vb], None);
+    let ra = ref_signable(None, b"1", &[vb]);
+    assert!(a.len() == ra.len() && ra.len() == 14, "C02.O1s signable buffer is the BEP44 encoding");
+    let mut i = 0;
+    while i < 14 {
+        assert!(a[i] == ra[i], "C02.O1s signable buffer is the BEP44 encoding");
+        i += 1;
+    }
+    let salt = [sb];
+    let b = encode_signable(-1, &[vb], Some(&salt));
+    let rb = ref_signable(Some(&salt), b"-1", &[vb]);
+    assert!(b.len() == rb.len() && rb.len() == 24, "C02.O1s signable buffer (salted) is the BEP44 encoding");
+    let mut i = 0;
+    while i < 24 {
+        assert!(b[i] == rb[i], "C02.O1s signable buffer (salted) is the BEP44 encoding");
+        i += 1;
+    }
+    kani::cover!(sb >= 0x80);
+    kani::cover!(vb == b':');
+    std::mem::forget(a);
+    std::mem::forget(b);
+    std::mem::forget(ra);
+    std::mem::forget(rb);
 }
 
 impl MutableItem {
